@@ -132,4 +132,57 @@ def main():
     shim = os.path.join(os.path.dirname(os.path.dirname(os.path.abspath(__file__))), 'shims', 'c19_client.c')
     for fn in ('c19_client', 'c19_nested'):
         chk.unit('verif:shims/c19_client.c', fn, C, 'math', 'real', abspath=shim)
+    lemmas(chk)
+    balance_units(chk)
     return chk.finish()
+
+
+def lemmas(chk):
+    """consequences of the contracts alone (no code): concurrent reservations under the thread lock are disjoint."""
+    from vlib.symex import Obligation
+    B, o1, s1, a1, r1, o2, s2, a2, r2 = z3.Ints('bottom o1 s1 a1 r1 o2 s2 a2 r2')
+
+    def region(o, s, a, r):      # clause 'threadlock_region' of stackalloc's contract
+        return z3.And(B - o - (s + a - 1) <= r, r + s <= B - o)
+    hyp = [x >= 0 for x in (B, o1, s1, a1, r1, o2, s2, a2, r2)] + [s1 > 0, s2 > 0, a1 >= 1, a2 >= 1,
+                                                                   region(o1, s1, a1, r1), region(o2, s2, a2, r2)]
+    # atomic fetch-add: whichever reservation comes second observes at least the first one's new value
+    chk.add_obligations([
+        Obligation('lemma/threadlock_reservations_disjoint(1 before 2)', hyp + [o2 >= o1 + s1 + a1 - 1], r2 + s2 <= r1, 'post'),
+        Obligation('lemma/threadlock_reservations_disjoint(2 before 1)', hyp + [o1 >= o2 + s2 + a2 - 1], r1 + s1 <= r2, 'post'),
+    ], {'function': 'lemma: threadlock reservations disjoint', 'file': 'contracts/memory.py', 'status': 'lemma over contracts'})
+    chk.assumptions.add('__atomic_fetch_add returns the previous value and adds atomically (linearizable): a later reservation '
+                        'observes at least the earlier one\'s updated pstack')
+
+
+def balance_units(chk):
+    """ghost depth counter: every engine function using mj_markStack/mj_freeStack returns at depth 0."""
+    import glob
+    import os
+    import time
+    from vlib import balance
+    from vlib.cast import load_tu, REPO, FrontEndError
+    anchored = ['engine_collision_driver.c', 'engine_core_constraint.c', 'engine_island.c', 'engine_forward.c', 'engine_support.c']
+    files = sorted(glob.glob(os.path.join(REPO, 'src/engine/*.c')))
+    for f in files:
+        rel = os.path.relpath(f, REPO)
+        if chk.tier == 'quick' and os.path.basename(f) not in anchored:
+            continue
+        if 'mj_markStack' not in open(f).read() or rel == FILE:
+            continue
+        t0 = time.time()
+        try:
+            tu = load_tu(rel)
+        except FrontEndError as e:
+            chk.out_of_reach.append('%s: not parsed (%s)' % (rel, str(e).split(chr(10))[0][:120]))
+            continue
+        chk.sources[rel] = tu.source_sha
+        res = balance.check_file(tu)
+        dt = (time.time() - t0) / max(1, len(res))
+        for fn, problems, note in res:
+            nm = 'balance/%s/%s' % (os.path.basename(rel), fn)
+            if problems is None:
+                chk.out_of_reach.append('%s: %s' % (nm, note))
+                continue
+            chk.external(nm, not problems, 'ghost-counter-vc', dt, detail='; '.join(problems))
+        chk.units.append({'file': rel, 'status': 'mark/free balance', 'functions': [r[0] for r in res]})
